@@ -414,6 +414,11 @@ func replay(t *testing.T, id, tier, file string) int {
 					code = 1
 				}
 			}
+			for _, rule := range sc.AlsoOwn {
+				if rule == h.Rule && len(h.Props) > 0 {
+					code = 1
+				}
+			}
 		}
 		fmt.Printf("replayed %d ops, %d hits\n", len(path), len(hits))
 	})
